@@ -15,6 +15,7 @@
 import ctypes, itertools, math, os, re, subprocess, sys
 import vlib
 import c11_search as S
+import c11_mirror
 
 HERE = os.path.dirname(os.path.abspath(__file__))
 
@@ -616,6 +617,7 @@ def run(ctx):
 
     # ---------------- (b) numerics: Coq binary64 model vs library
     ncases = gen_numeric_cases(L, rng, ctx.scale(400, 4000), ctx.scale(400, 4000))
+    ncases += c11_mirror.gen_cases(L, rng, ctx.scale(400, 4000), ctx.scale(300, 3000))
     jobs = []
     chunk = 100
     for c0 in range(0, len(ncases), chunk):
@@ -634,14 +636,16 @@ def run(ctx):
         else:
             bad_total += [c0 + b for b in bad]
     nan_bad = [d for k, _, _, d in ncases if k == "from_orbit" and not d["nan_particle_on_error"]]
-    ctx.obligation("correspondence:C11 model(binary64, libm tables) == reb_particle_from_orbit_err / reb_mod2pi / reb_M_to_E / reb_E_to_f / reb_M_to_f bit-for-bit on %d cases" % len(ncases),
-                   corr_ok and not bad_total, "mismatching: %s" % [(ncases[b][0], ncases[b][3]) for b in bad_total[:4]])
+    from collections import Counter
+    ctx.extra["numeric_cases"] = dict(Counter(k for k, _, _, _ in ncases))
+    ctx.obligation("correspondence:C11 model(binary64, libm tables) == reb_particle_from_orbit_err / reb_mod2pi / reb_M_to_E / reb_E_to_f / reb_M_to_f / reb_orbit_from_particle_err / reb_tools_solve_kepler_pal / reb_particle_from_pal / reb_tools_particle_to_pal bit-for-bit on %d cases" % len(ncases),
+                   corr_ok and not bad_total, "mismatching (%d): %s" % (len(bad_total), [(ncases[b][0], ncases[b][3]) for b in bad_total[:4]]))
     ctx.obligation("correspondence:C11 an error code of reb_particle_from_orbit_err comes with an all-NaN particle",
                    not nan_bad, str(nan_bad[:2]))
     if corr_ok and not bad_total:
         ctx.traces += len(ncases)
     for k, _, _, d in ncases:
-        ctx.case(key=(k, d.get("err", 0), d.get("e", 0) > 1))
+        ctx.case(key=(k, d.get("err", 0), (d.get("e", 0) if "e" in d else d.get("case", {}).get("e", 0)) > 1))
 
     # ---------------- (c) searcher
     S.search(ctx, L)
